@@ -658,7 +658,9 @@ func checkTrailing(c *core.Ctx, rel, recv, name string) {
 		}
 	}
 	dontParse := core.BoolEdgesWhere(fn, func(v ssa.Value) bool { return core.IsFieldRef(v, "DecodeOptions", "DontParseBeyondEnd") }, true)
-	umNil := core.EdgesWhere(fn, func(r core.Rel) bool { return r.Op == token.EQL && core.Strip(r.X) == ssa.Value(um) && core.IsNilConst(r.Y) })
+	umNil := core.EdgesWhere(fn, func(r core.Rel) bool {
+		return r.Op == token.EQL && core.Strip(r.X) == ssa.Value(um) && core.IsNilConst(r.Y)
+	})
 	isReadErr := func(v ssa.Value) bool {
 		e, ok := core.Strip(v).(*ssa.Extract)
 		if !ok || e.Index != 1 {
